@@ -1,5 +1,6 @@
 import WM.Lemmas.CodecWF
 import WM.Lemmas.CodecAggSpec
+import WM.Lemmas.CodecInline
 /-!
 # C10 — postings, term statistics and vectors read back exactly what was indexed
 (block layer: `W3PostingsWriter`, `W3LeafMatcher`, `W3TermInfo`; the value codecs of `formats.py`
@@ -149,6 +150,90 @@ theorem inline_roundtrip (c : Cfg ι μ) (ps : List (Posting ι)) (hne : ps ≠ 
     writeTerm c ps = .ok ([], { tiOf c ps with
       inlined := some (ps.map (·.id), ps.map (fun p => c.f32 p.weight), storedValues ps) }) :=
   writeTerm_inline c ps hne hin hle hvalid
+
+/-- **Inlined read path.**  Reading the inlined tuple back through `ListMatcher` (what
+    `W3Codec.postings_reader` builds for an inlined term info) shows the posting list: ids, stored
+    weights and values — the empty byte string for a value-less format, where the block reader
+    shows `None`.  Together with `blocks_roundtrip`: the list read back does not depend on whether
+    it was inlined. -/
+theorem inline_read (c : Cfg ι μ) (ps : List (Posting ι)) (hne : ps ≠ [])
+    (hin : ps.length < c.inlinelimit) (hle : ps.length ≤ c.blocklimit)
+    (hvalid : ∀ p ∈ ps, c.ids.valid p.id = true) (hv : InlineValuesOk c.fixedsize ps) :
+    ∃ ti ids ws vs, writeTerm c ps = .ok ([], ti) ∧ ti.inlined = some (ids, ws, vs) ∧
+      inlinedRead ids ws vs = .ok (ps.map fun p => (p.id, c.f32 p.weight, p.value)) ∧
+      ∀ p ∈ ps, (expected c p).id = p.id ∧ (expected c p).weight = c.f32 p.weight ∧
+        ((expected c p).value = some p.value ∨ (c.fixedsize = some 0 ∧ p.value = [])) := by
+  refine ⟨_, _, _, _, writeTerm_inline c ps hne hin hle hvalid, rfl, inlinedRead_spec c ps hne hv, ?_⟩
+  intro p hp
+  refine ⟨rfl, rfl, ?_⟩
+  unfold expected
+  cases hfs : c.fixedsize with
+  | none => left; rfl
+  | some n =>
+    cases n with
+    | zero =>
+      right
+      simp only [InlineValuesOk, hfs] at hv
+      exact ⟨rfl, hv p hp⟩
+    | succ m => left; rfl
+
+example :
+    let c : Cfg Int (List Int) :=
+      { ids := docIds, f32 := id, blocklimit := 4, compression := 3, inlinelimit := 3, fixedsize := some 0 }
+    let ps : List (Posting Int) := [⟨7, 1, [], none⟩, ⟨9, 2, [], none⟩]
+    ps ≠ [] ∧ ps.length < c.inlinelimit ∧ ps.length ≤ c.blocklimit ∧ InlineValuesOk c.fixedsize ps ∧
+      storedValues ps = [] ∧ inlinedValue (storedValues ps) 1 = .ok [] := by
+  refine ⟨by simp, by decide, by decide, ?_, by decide, rfl⟩
+  intro p hp
+  simp only [List.mem_cons, List.not_mem_nil, or_false] at hp
+  rcases hp with rfl | rfl <;> rfl
+
+/-- **Term info as `reader.term_info` observes it** (`W3TermInfo.from_bytes(to_bytes())`): for a
+    posting list of document numbers none of which is the `0xffffffff` NO_ID sentinel, the
+    statistics that come back are df, first and last id unchanged, total and max weight through
+    `struct "f"` (`f32`), and the min/max length through the length byte
+    (`byte_to_length (length_to_byte ·)`, `None → 0`). -/
+theorem terminfo_through_bytes (c : Cfg Int (List Int)) (ps : List (Posting Int)) (n : Nat)
+    (hids : ∀ p ∈ ps, p.id ≠ 4294967295) :
+    ∃ t', TermInfo.throughBytes c.f32 { tiOf c ps with extent := some n } = .ok t' ∧
+      t'.df = ps.length ∧ t'.weight = c.f32 (sumW c.f32 ps) ∧ t'.maxweight = c.f32 (maxW c.f32 ps) ∧
+      t'.minid = ps.head?.map (·.id) ∧ t'.maxid = ps.getLast?.map (·.id) ∧ t'.extent = some n ∧
+      some t'.maxlength = byteToLength (lengthToByte (some (maxLen ps))) ∧
+      t'.minlength = byteToLength (minLenByte (minLen ps)) := by
+  obtain ⟨mx, hmx⟩ := byteToLength_lengthToByte (some (maxLen ps))
+  obtain ⟨mn, hmn⟩ : ∃ mn, byteToLength (minLenByte (minLen ps)) = some mn := by
+    unfold minLenByte
+    cases minLen ps with
+    | none => exact byteToLength_lengthToByte none
+    | some l => exact byteToLength_lengthToByte (some l)
+  have hsent : ∀ o : Option Int, (∀ x, o = some x → x ≠ 4294967295) → unNoId o = o := by
+    intro o ho
+    cases o with
+    | none => rfl
+    | some x =>
+      by_cases hx : x = 4294967295
+      · exact absurd hx (ho x rfl)
+      · unfold unNoId
+        split
+        · next heq => exact absurd (Option.some.inj heq) hx
+        · rfl
+  have hfirst : ∀ x, ps.head?.map (·.id) = some x → x ≠ 4294967295 := by
+    intro x hx
+    cases ps with
+    | nil => simp at hx
+    | cons a l => simp at hx; subst hx; exact hids a (by simp)
+  have hlast : ∀ x, ps.getLast?.map (·.id) = some x → x ≠ 4294967295 := by
+    intro x hx
+    cases hl : ps.getLast? with
+    | none => rw [hl] at hx; simp at hx
+    | some a => rw [hl] at hx; simp at hx; subst hx; exact hids a (List.mem_of_getLast? hl)
+  refine ⟨{ weight := c.f32 (sumW c.f32 ps), df := ps.length, minlength := some mn, maxlength := mx
+            maxweight := c.f32 (maxW c.f32 ps), minid := ps.head?.map (·.id)
+            maxid := ps.getLast?.map (·.id), extent := some n, inlined := none },
+    ?_, rfl, rfl, rfl, rfl, rfl, rfl, ?_, ?_⟩
+  · simp only [TermInfo.throughBytes, tiOf, hmn, hmx, hsent _ hfirst, hsent _ hlast]
+  · simp only [hmx]
+  · simp only [hmn]
 
 /-- **The block cursor refines the list cursor** (1): reads show the head of `den`, `is_active`
     is "`den` is not empty". -/
